@@ -104,6 +104,8 @@ def ops(tmpdir):
         "with_list_field": ("pure", "ser", lambda f: f["ser"].nest.with_list_field(
             "t", pa.array([[9] * k for k in f["ser"].nest.list_lengths], type=pa.list_(pa.int64())))),
         "with_filled_field": ("pure", "ser", lambda f: f["ser"].nest.with_filled_field("c", [1, 2, 3, 4])),
+        "nest_getitem_all": ("pure", "ser", lambda f: f["ser"].nest[list(f["ser"].nest.fields)]),
+        "nest_getitem_one": ("pure", "ser", lambda f: f["ser"].nest[[list(f["ser"].nest.fields)[0]]]),
         "without_field": ("pure", "ser", lambda f: f["ser"].nest.without_field("f")),
         "count_nested": ("pure", "orig", lambda f: count_nested(f["orig"], "n")),
         "to_parquet": ("pure", "orig", to_parquet),
